@@ -4,6 +4,19 @@ claimed / not_applicable partition is always consistent)."""
 import json
 
 CLAIMS = {
+ 'C18': dict(
+   text='Static ownership analysis of temporary files: every creation site in the package (enumerated each run) has a '
+        'finaliser-carrying owner from the next statement on, or is a guarded, __del__-finalised attribute; the finalisers '
+        'reach unlink on every path; owners flow only into frame-local lists and the view\'s cache attribute; every '
+        'generator that reads chunk files holds the owner list in its own frame (bound to the view\'s list at every call '
+        'site), derives the names from it and drops readers before owners; the shared owner list is replaced, never '
+        'emptied in place. File lifetime is thereby tied to reachability from frames and the view for EVERY history of '
+        'iterator creation, abandonment and release, not the two histories the tests walk.',
+   ref='DESIGN.md §4 C18',
+   note='assumes CPython reference counting / GC runs __del__ when the last reference disappears; does not run the '
+        'collector; exception safety of the chunk dump is covered by "owner first" (R18.1)',
+   technique='ownership / escape analysis of owner objects (def-use over the creating frame, call-site binding of '
+             'the reader generators, finaliser must-reach)'),
  'C17': dict(
    text='Static must-analysis of the all-or-nothing clause over every path (normal, exceptional, finally) of the five '
         '_todb_* implementations and their delegates: every commit() is reached only after the statement that consumes the '
